@@ -32,6 +32,10 @@ pub struct SchedCase {
     /// Ring::poll calls of the poller thread.
     pub polls: u8,
     pub sqpoll: bool,
+    /// The poller thread drops the Ring after its polls, while the submitters
+    /// may still be submitting.
+    #[serde(default)]
+    pub drop_ring: bool,
     pub tape: Vec<u16>,
 }
 
@@ -133,6 +137,7 @@ pub fn run(case: &SchedCase, ctx: &mut Ctx) -> Vec<&'static str> {
         let errors = errors.clone();
         let polls = case.polls.min(4);
         let sqpoll = case.sqpoll;
+        let drop_ring = case.drop_ring;
         threads.push(Box::new(move || {
             let mut ring = ring_slot.lock().unwrap().take();
             for _ in 0..polls {
@@ -154,7 +159,17 @@ pub fn run(case: &SchedCase, ctx: &mut Ctx) -> Vec<&'static str> {
                     }
                 }
             }
-            *ring_slot.lock().unwrap() = ring;
+            if drop_ring && !sqpoll {
+                let r = {
+                    let _s = track::scope(track::TAG_A10);
+                    catch(move || drop(ring))
+                };
+                if let Err((m, l)) = r {
+                    errors.lock().unwrap().push(format!("dropping the Ring panicked at {l}: {m}"));
+                }
+            } else {
+                *ring_slot.lock().unwrap() = ring;
+            }
         }));
     }
     let outcome = sched::run(case.tape.clone(), 20_000, false, threads);
@@ -179,6 +194,39 @@ pub fn run(case: &SchedCase, ctx: &mut Ctx) -> Vec<&'static str> {
         classes.push("switch-inside-a10");
     }
 
+    if case.drop_ring && !case.sqpoll && world.ring.is_none() {
+        // The Ring is gone: whatever was accepted into the queue (published)
+        // must have been handed to the kernel by the Ring's drop; a submitter
+        // that came too late must have been refused (nothing published).
+        classes.push("ring-dropped-while-submitting");
+        if !ctx.failed() {
+            let (head, tail) = {
+                let mut s = sim::sim();
+                match s.ring(ring_fd) {
+                    Some(r) => (r.sq_head_shared(), r.sq_tail()),
+                    None => (0, 0),
+                }
+            };
+            if tail != head {
+                let mut left = Vec::new();
+                let mut s = sim::sim();
+                if let Some(r) = s.ring(ring_fd) {
+                    let mut p = r.k_sq_head;
+                    while p != tail {
+                        left.push(r.read_sqe_slot(p).off);
+                        p = p.wrapping_add(1);
+                    }
+                }
+                ctx.violation("C04:sched:accepted-after-ring-drop", format!("submissions tagged {left:x?} were accepted into the queue (published) while or after the Ring was dropped and were never passed to the kernel; nobody will submit them"));
+            }
+        }
+        {
+            let _s = track::scope(track::TAG_A10);
+            drop(all);
+            drop(world);
+        }
+        return classes;
+    }
     // Sequential finish: complete everything the kernel consumes, poll every
     // future until all resolved.
     if !ctx.failed() {
